@@ -37,6 +37,7 @@ Accepted(e) ==
           IN
           /\ IF i.r = "ok" /\ (iv.r = "ill" \/ (iv.r = "ok" /\ ConvH(iv.ty, e.ty, <<>>, FUEL).r = "no"))
              THEN Bad(<<"C04", "the value does not have the reported type", "holes_opened", e.holes_opened>>) ELSE TRUE
+          /\ IF e.whnf.k # "none" /\ ~Ident(e.whnf, e.end) THEN Bad(<<"C06", "weak-head normalising the program (as the checker does) does not give the literal that running it gives">>) ELSE TRUE
           /\ IF sem.r = "ok" /\ ~( (e.end.k = "lit" /\ sem.v.v = "lit" /\ sem.v.n = e.end.v) \/ (e.end.k = "true" /\ sem.v.v = "bool" /\ sem.v.b) \/ (e.end.k = "false" /\ sem.v.v = "bool" /\ ~sem.v.b) )
              THEN Bad(<<"C02", "value differs from the big-step environment semantics">>)
              ELSE IF sem.r = "err" THEN Bad(<<"C02", "the big-step semantics is stuck where the program produced a value", sem.why>>) ELSE TRUE
